@@ -45,10 +45,13 @@ CLAIMED = {
         text=("Lean theorem (any field, any tables, any weights): a local explicit cell update - exchange with the listed "
               "neighbours weighted by the two cell types, a donor (swirl) term, a typed source term - commutes with every "
               "permutation that preserves types, maps neighbour lists to neighbour lists and commutes with the donor map, "
-              "for one step and by induction for any sweep.  For every dumped ring count the six rotations and the mirror, "
+              "for one step and by induction for any sweep; automorphisms compose, so the two generators give all twelve "
+              "symmetries.  For every dumped ring count the rotation by 60 degrees and the mirror, "
               "derived from the published centroid coordinates (not from the numbering), are certified by the Lean kernel "
               "to be such automorphisms of the tables the running code builds (types, neighbours, clockwise and "
-              "counter-clockwise swirl donors - the mirror exchanges them -, pin incidence).  Real runs with rotated / "
+              "counter-clockwise swirl donors - the mirror exchanges them -, pin incidence); a soundness lemma turns the "
+              "Boolean certificates into the hypotheses of the theorems (generated instances per ring count).  That the real "
+              "update is local (one update per neighbour-type class) is re-established by symbolic execution.  Real runs with rotated / "
               "mirrored asymmetric power maps (single assemblies, both wire directions, 1-2 ducts) and 60-degree rotations "
               "of whole 7-position cores (holes, all gap models) are compared field by field."),
         note=COMMON_NOTE + ("T2 permutation + table certificates; the generic theorem covers the interior coolant update "
@@ -117,12 +120,17 @@ CLAIMED = {
               "by the real interior update equals the code's own power + duct-wall tallies, that the tallied power "
               "equals the pin + coolant heat generated, and that conduction/mixing/swirl exchange sums to zero; the "
               "same for the bypass gap of a double-duct bundle.  The expressions are obtained on every run by "
-              "symbolic execution of the real methods.  Other ring counts, low-fidelity and multi-region assemblies, "
-              "and the mixed-mean carry-over are decided by driving real reactors plane by plane."),
+              "symbolic execution of the real methods.  Every ring count 2..20: a generic Lean theorem (exchange over a "
+              "symmetric neighbour relation with type-symmetric coefficients and a permutation donor map sums to zero) is "
+              "instantiated on the kernel-certified real tables, and 100 generated identities show that in energy form every "
+              "traced neighbour weight of every neighbour-type class is such a symmetric coefficient.  Low-fidelity and "
+              "multi-region assemblies, temperature-dependent coolant, flow continuity between steps and the mixed-mean "
+              "carry-over are decided by driving real reactors plane by plane."),
         note=COMMON_NOTE + ("T1b symbolic execution (whole-bundle); hypotheses of the theorems: 6*q_interior = 1 for "
                             "the pin-to-subchannel fraction literal 0.166666666666667 (defect 2e-15), equal swirl "
                             "velocity for edge and corner cells (checked on real regions), positive divisors.  "
-                            "Partial: ring counts > 3 rely on the per-step oracle (and on C08's table certificates); "
+                            "Partial: for ring counts > 3 the identification of each real cell with its class is the "
+                            "trace-shape obligation (exact rational-function agreement) + classCert, not a Lean theorem; "
                             "the O(dz) property-lag clause for temperature-dependent coolants is not a theorem."),
         technique="Lean 4 proof (field_simp/ring) over symbolically traced whole-bundle update + per-step reactor oracle",
         design="5/C01"),
@@ -161,13 +169,16 @@ CLAIMED = {
               "an affine combination of the coupled previous-level temperatures with non-negative weights summing to "
               "one plus a non-negative, temperature-independent heating term (corollaries: uniform field reproduced, "
               "no undershoot, no new extremum).  Update and limit are both obtained by symbolically executing the "
-              "real setup/update/limit functions on real regions on every run.  Gap, low-fidelity and reactor-level "
-              "step selection are decided by linear probing of the real operators at the selected step."),
+              "real setup/update/limit functions on real regions on every run.  The same, per cell, for the inter-assembly "
+              "gap (real Core._flow_model and core.calculate_min_dz traced on 2- and 3-assembly cores, 49 cells) and per node "
+              "for the low-fidelity regions (simple / six-node, low-flow approximation, adiabatic; 26 nodes): generated "
+              "theorems with their proofs.  Reactor-level step selection, the no-flow / duct-average gap models and the "
+              "temperature range are decided by linear probing of the real operators at the selected step."),
         note=COMMON_NOTE + ("T1b symbolic execution (harness/bundle_trace.py) of _setup_ht_constants, "
                             "_calc_coolant_int_temp, _calc_coolant_byp_temp, _calculate_int_dz/_byp_dz; all cells of a "
-                            "class must agree exactly with the class representative.  Partial: the gap and low-fidelity "
-                            "limits, the adiabatic variants and the whole-temperature-range clause are covered by the "
-                            "probing oracle only (tests, not theorems)."),
+                            "class must agree exactly with the class representative.  Partial: the whole-temperature-range "
+                            "clause (known finding: limit evaluated at the range ends only) and the no-flow / duct-average gap "
+                            "models are covered by the probing oracle only (tests, not theorems)."),
         technique="Lean 4 proof over symbolically traced update + limit (per class) + linear probing oracle",
         design="5/C04"),
     "C12": dict(
@@ -190,8 +201,9 @@ CLAIMED = {
               "the centre for any number of shells, film and clad drops equal q/(2 pi r_o h) and q ln(r_o/r_i)/(2 pi k), "
               "each shell satisfies dT k = qdens d(r^2)/4, zero power gives the coolant temperature everywhere, clad "
               "temperatures increase with power for fixed conductivities, and a weighted coolant average with weights "
-              "summing to one reproduces a uniform field.  The relations are evaluated on the temperatures the real "
-              "PinModel reports for generated pin models (conductivities recomputed from the real materials)."),
+              "summing to one reproduces a uniform field.  Correspondence: the Lean model (native driver) is run on the data "
+              "of generated pin models - shells with their own materials' converged conductivities - and compared with the "
+              "temperatures the real PinModel reports; the relations are also evaluated directly on those temperatures."),
         note=COMMON_NOTE + ("T3 hand model; the tie is relation-checking on real outputs up to the iteration tolerance "
                             "(2e-2 K), not a bit-level correspondence, because the k-iteration is data dependent.  "
                             "Partial: monotonicity for temperature-dependent conductivities and the radiating-gap fixed "
